@@ -240,6 +240,27 @@ func (w *World) onTrafficUDP(c gnet.Conn) gnet.Action {
 			} else if err != nil || n != op.N {
 				w.violate("C08", "write", "datagram %d: SendTo of %d bytes returned (%d, %v)", idx, op.N, n, err)
 			}
+		case "sendto-any":
+			// the wildcard address of the socket's own family as destination (the
+			// kernel delivers such a datagram to the local host): it must reach the
+			// kernel as that address, in that family
+			port := 7000 + idx%1000
+			var sa unix.Sockaddr = &unix.SockaddrInet4{Port: port}
+			na := &net.UDPAddr{IP: net.IPv4zero, Port: port}
+			if w.p.Cfg.Network == "udp6" {
+				sa, na = &unix.SockaddrInet6{Port: port}, &net.UDPAddr{IP: net.IPv6unspecified, Port: port}
+			}
+			e := &expSend{payload: append([]byte(nil), data...), to: sa, what: "SendTo", task: task}
+			u.expectOut = append(u.expectOut, e)
+			n, err := c.SendTo(data, na)
+			w.probes["sendto-wildcard-address"]++
+			if err != nil && len(w.p.Faults) > 0 {
+				e.dropped = true
+			} else if err != nil || n != op.N {
+				w.violate("C17", "sendto-wildcard", "datagram %d: SendTo(%d bytes, %s) returned (%d, %v)", idx, op.N, na, n, err)
+				w.violate("C08", "write", "datagram %d: SendTo of %d bytes to %s returned (%d, %v)", idx, op.N, na, n, err)
+				e.dropped = true
+			}
 		case "sendto-bad":
 			var bad net.Addr
 			kind := 0
@@ -457,6 +478,8 @@ func GenerateUDP(seed uint64, tier string) *Plan {
 				if r.Chance(1, 6) {
 					// an address no conversion exists for: must be refused, not sent anywhere
 					op.M, op.Segs = "sendto-bad", []int{r.Intn(4)}
+				} else if r.Chance(1, 8) {
+					op.M = "sendto-any"
 				}
 			}
 			d.Reply = append(d.Reply, op)
